@@ -413,10 +413,20 @@ impl Gen {
             self.fresh_id()
         };
         let kind = KINDS[self.rng.weighted(&self.cfg.kind_w)];
-        let v = self.qty();
+        let mut v = self.qty();
         let h = if kind.layered() {
             if self.cfg.big {
-                self.qty()
+                // keep the number of replenishment rounds of a legitimate match small:
+                // the displayed part is at least an eighth of the hidden part
+                if kind == Kind::Iceberg {
+                    // an iceberg's tranche shrinks with every partial fill, so a huge hidden part
+                    // can need ~2^60 rounds: keep the hidden part small, the display huge
+                    *self.rng.pick(&[0u64, 1, 2, 3, 100, 1000])
+                } else {
+                    let h = self.qty();
+                    v = (h / (1 + self.rng.below(8))).max(1);
+                    h
+                }
             } else if self.rng.below(100) < (self.cfg.zero_pct as u64 + 5) {
                 0
             } else {
@@ -433,7 +443,7 @@ impl Gen {
         let mut p = Params::default();
         if self.cfg.big {
             p.thr = *self.rng.pick(&[0, 1, 1 << 40]);
-            p.amt = *self.rng.pick(&[None, Some(1 << 58), Some(u64::MAX)]);
+            p.amt = *self.rng.pick(&[Some(h / 3 + 1), Some(1 << 58), Some(u64::MAX)]);
         } else {
             p.thr = *self.rng.pick(&[0u64, 0, 1, 2, 3, 5, 10]);
             p.amt = *self.rng.pick(&[None, None, Some(0), Some(1), Some(2), Some(3), Some(7), Some(100)]);
@@ -453,6 +463,11 @@ impl Gen {
         let id = model::oid(idn);
         self.arrival.push(model::key(&id));
         Some(model::mk(kind, id, self.price, v, h, self.side, ts, tif, &p))
+    }
+
+    /// make the next fresh id at least `n` (continuations must not collide with earlier ids)
+    pub fn skip_ids(&mut self, n: u64) {
+        self.next_id = self.next_id.max(n);
     }
 
     fn fresh_id(&mut self) -> u64 {
@@ -483,9 +498,11 @@ impl Gen {
         }
     }
 
-    fn amend_qty(&mut self) -> u64 {
+    fn amend_qty(&mut self, obs: &Obs, id: &OrderId) -> u64 {
         if self.cfg.big {
-            return self.qty() / 2;
+            // keep tranches of layered orders within a factor 8 of their hidden part
+            let h = obs.find(model::key(id)).map(model::hid).unwrap_or(0);
+            return (self.qty() / 2).max(h / 8);
         }
         if self.rng.below(100) < (self.cfg.zero_pct as u64 * 2).min(40) {
             0
@@ -610,23 +627,26 @@ impl Gen {
                     })
                 }
                 3 => {
+                    let id = self.target(obs);
                     return HOp::Update(OrderUpdate::UpdateQuantity {
-                        order_id: self.target(obs),
-                        new_quantity: self.amend_qty(),
-                    })
+                        order_id: id,
+                        new_quantity: self.amend_qty(obs, &id),
+                    });
                 }
                 4 => {
+                    let id = self.target(obs);
                     return HOp::Update(OrderUpdate::UpdatePriceAndQuantity {
-                        order_id: self.target(obs),
+                        order_id: id,
                         new_price: self.other_price(),
-                        new_quantity: self.amend_qty(),
-                    })
+                        new_quantity: self.amend_qty(obs, &id),
+                    });
                 }
                 5 => {
+                    let id = self.target(obs);
                     return HOp::Update(OrderUpdate::Replace {
-                        order_id: self.target(obs),
+                        order_id: id,
                         price: self.other_price(),
-                        quantity: self.amend_qty(),
+                        quantity: self.amend_qty(obs, &id),
                         side: if self.rng.chance(1, 2) { Side::Buy } else { Side::Sell },
                     })
                 }
@@ -659,6 +679,81 @@ pub fn id_number(k: u128) -> Option<u64> {
 
 /// Generates a history online against a fresh level and records it.
 pub fn gen_and_run(cfg: &GenCfg, rng: Rng) -> Trace {
+    gen_and_run_sut(cfg, rng).0
+}
+
+/// Continues an existing level online for `n` more operations (C11 continuations).
+pub fn continue_run(g: &mut Gen, sut: &mut Sut, n: usize, final_drain: bool) -> Trace {
+    let mut tr = Trace {
+        price: g.price,
+        ns: Uuid::nil(),
+        initial: observe(&sut.level),
+        recs: Vec::with_capacity(n + 1),
+        aborted: false,
+    };
+    let mut before = tr.initial.clone();
+    let total = n + if final_drain { 1 } else { 0 };
+    for i in 0..total {
+        let op = if final_drain && i + 1 == total {
+            HOp::Match {
+                qty: u64::MAX / 4,
+                taker: model::oid(9_999_999),
+            }
+        } else {
+            g.next_op(&before)
+        };
+        let (res, steps) = sut.apply(&op);
+        let bad = matches!(res, HRes::Panicked(_) | HRes::Overrun);
+        let after = observe(&sut.level);
+        let rec = Rec {
+            op,
+            before,
+            res,
+            after: after.clone(),
+            steps,
+        };
+        g.note(&rec);
+        tr.recs.push(rec);
+        before = after;
+        if bad {
+            tr.aborted = true;
+            break;
+        }
+    }
+    tr
+}
+
+/// Replays operations on an existing system under test.
+pub fn replay_on(sut: &mut Sut, ops: &[HOp]) -> Trace {
+    let mut tr = Trace {
+        price: sut.level.price(),
+        ns: Uuid::nil(),
+        initial: observe(&sut.level),
+        recs: Vec::with_capacity(ops.len()),
+        aborted: false,
+    };
+    let mut before = tr.initial.clone();
+    for op in ops {
+        let (res, steps) = sut.apply(op);
+        let bad = matches!(res, HRes::Panicked(_) | HRes::Overrun);
+        let after = observe(&sut.level);
+        tr.recs.push(Rec {
+            op: op.clone(),
+            before,
+            res,
+            after: after.clone(),
+            steps,
+        });
+        before = after;
+        if bad {
+            tr.aborted = true;
+            break;
+        }
+    }
+    tr
+}
+
+pub fn gen_and_run_sut(cfg: &GenCfg, rng: Rng) -> (Trace, Sut, Gen) {
     let mut g = Gen::new(cfg.clone(), rng);
     let ns = Uuid::from_u128(g.rng.next_u64() as u128 | ((g.rng.next_u64() as u128) << 64));
     let mut sut = Sut::new(g.price, ns);
@@ -705,7 +800,7 @@ pub fn gen_and_run(cfg: &GenCfg, rng: Rng) -> Trace {
             break;
         }
     }
-    tr
+    (tr, sut, g)
 }
 
 /// Replays a fixed operation list on a fresh level (twin runs).  `extra` is called before each
